@@ -104,6 +104,12 @@ def _check_outer(facts, sign, helper, hbody, h_some_blocks, qlocal):
     if ok_edge is None:
         return False, "sign() does not branch on the result of %s" % helper["name"]
     ots = [(bi, body.blocks[bi]["t"]) for bi in body.reach if body.blocks[bi]["t"][0] == "call" and re.search(r"::ots_sign$", norm_name(body.blocks[bi]["t"][1]["f"]))]
+    if not ots:
+        modp = "::".join(norm_name(sign["name"]).split("::")[:-2]) + "::"
+        ots = [(bi, body.blocks[bi]["t"]) for bi in body.reach
+               if body.blocks[bi]["t"][0] == "call" and body.blocks[bi]["t"][1].get("l") and bi != cb
+               and norm_name(body.blocks[bi]["t"][1]["f"]).startswith(modp)
+               and any(operand_local(a_) in derived for a_ in body.blocks[bi]["t"][2])]
     somes = [bi for bi in body.reach for s_ in body.blocks[bi]["s"] if s_[0] == "A" and s_[1] == [0] and s_[2][0] == "agg" and s_[2][1].get("variant") == 1]
     if not ots or not somes or not all(body.dominates(ok_edge, b_) for b_, _t in ots) or not all(body.dominates(ok_edge, b_) for b_ in somes):
         return False, "the success of %s does not dominate ots_sign() and every Some(..) return of sign()" % helper["name"]
@@ -136,12 +142,26 @@ def run_lmsstate(facts, run, prop="C16"):
     for mod in mods:
         adt = mod + "::PrivateKey"
         fidx = _field_index(facts, adt, "current_leaf")
+        if fidx is None:
+            # renamed private field: the leaf counter is the one integer field of the private key (the others are byte
+            # arrays: identifier, seed)
+            ints = []
+            for td in facts.types:
+                if td.get("k") == "adt" and td.get("path") == adt and td.get("variants"):
+                    ints = [i for i, f_ in enumerate(td["variants"][0][2]) if facts.ty(f_[1]).get("k") in ("uint", "int")]
+            fidx = ints[0] if len(ints) == 1 else None
         hrec = facts.data.get(mod + "::h")
-        if fidx is None or hrec is None or "bytes" not in hrec:
+        h = None
+        if hrec is not None and "bytes" in hrec:
+            h = int.from_bytes(bytes.fromhex(hrec["bytes"]), "little")
+        else:
+            # the tree height is part of the (public) parameter-set name: LMS_.._H5_..
+            mh = re.search(r"_H(\d+)_", mod)
+            h = int(mh.group(1)) if mh else None
+        if fidx is None or h is None:
             run.oblige(ok=False)
-            run.add(Finding("G6", mod + "|anchor", "lmsstate: %s: field current_leaf or const h not found" % mod, config=cfg, prop=prop))
+            run.add(Finding("G6", mod + "|anchor", "lmsstate: %s: leaf counter field or tree height not found" % mod, config=cfg, prop=prop))
             continue
-        h = int.from_bytes(bytes.fromhex(hrec["bytes"]), "little")
         limit = 1 << h
 
         def bad(rule, what, fn, line=None):
@@ -247,6 +267,25 @@ def run_lmsstate(facts, run, prop="C16"):
             for s in body.blocks[bi]["s"]:
                 if s[0] == "A" and s[1] == [0] and s[2][0] == "agg" and s[2][1].get("variant") == 1:
                     some_blocks.append(bi)
+        if not ots_blocks and outer is None:
+            # the one-time signer under another name: a call into the same module that receives the leaf index q
+            for bi in body.reach:
+                t = body.blocks[bi]["t"]
+                if t[0] != "call" or not t[1].get("l") or not norm_name(t[1]["f"]).startswith(mod + "::"):
+                    continue
+                for a_ in t[2]:
+                    x = operand_local(a_)
+                    for _ in range(8):
+                        if x is None or x == qlocal:
+                            break
+                        dd = body.single_def(x)
+                        if dd and dd[2] == "A" and dd[3][2][0] == "use" and dd[3][2][1][0] in ("cp", "mv") and len(dd[3][2][1][1]) == 1:
+                            x = dd[3][2][1][1][0]
+                        else:
+                            x = None
+                    if x == qlocal and qlocal is not None:
+                        ots_blocks.append((bi, t))
+                        break
         dom_ok = (bool(ots_blocks) or outer is not None) and all(body.dominates(sb, b) for b, _t in ots_blocks) and \
             all(body.dominates(sb, b) for b in some_blocks) and bool(some_blocks)
         if dom_ok and outer is not None:
